@@ -46,6 +46,7 @@ class Engine:
         self.n = 0
         self.cat = None
         self.batch = 0
+        self.stalls = []
 
     # ------------------------------------------------------------------ plumbing
     def setup(self):
@@ -86,10 +87,17 @@ class Engine:
         trs = load_jsonl(fout)
         if len(trs) != len(scns):
             raise vlib.ToolError("driver returned %d traces for %d scenarios (%s)" % (len(trs), len(scns), label))
-        stalls = [t["id"] + ": " + t["meta"]["stall"] for t in trs if "stall" in (t.get("meta") or {})]
-        if stalls:
-            raise vlib.ToolError("driver stalled (%s): %s" % (label, "; ".join(stalls[:3])))
-        return list(zip(scns, trs))
+        # a copy that neither returns nor issues a request (a hang of the code under test): not a verdict
+        # of these properties; remembered, and a tooling error at the end unless a violation explains it
+        for sc, t in zip(scns, trs):
+            if "stall" in (t.get("meta") or {}):
+                self.stalls.append("%s (%s/%s %s): %s" % (t["id"], sc["shape"], sc["pair"], json.dumps(sc["opts"]), t["meta"]["stall"]))
+        return [(sc, t) for sc, t in zip(scns, trs) if "stall" not in (t.get("meta") or {})]
+
+    def check_stalls(self):
+        if self.stalls and not self.ctx.violations:
+            raise vlib.ToolError("ImageCopy hung in %d scenario(s) (neither returned nor issued a request): %s"
+                                 % (len(self.stalls), "; ".join(self.stalls[:3])))
 
     # ------------------------------------------------------------- scenario space
     def option_sets(self, shape):
@@ -241,6 +249,8 @@ class Engine:
             sc = t["scenario"]
             ob = (r["detail"] or r["reason"]).strip('"')
             sig = "copy:%s:%s:%s" % (ob, "layout" if sc["pair"] in ("reg2dir", "dir2dir") else "registry", cause_of(sc))
+            if ob == "C04:child-missing":
+                sig += ":" + missing_class(t["events"], r["line"])
             what = "%s at event %s of trace %s (shape %s, %s, opts %s, init %s, tag0 %s, mode %s, faults %s%s%s)" % (
                 ob, json.dumps(r["event"], sort_keys=True)[:300], t["id"], sc["shape"], sc["pair"], json.dumps(sc["opts"]),
                 ",".join(sc["init"]), sc["tag0"], sc["mode"], json.dumps(sc.get("faults", [])),
@@ -266,6 +276,7 @@ class Engine:
 
         demos = []
         plain = lambda sc, t: (sc["pair"] == "tworeg" and not sc.get("faults") and not sc.get("cancel") and not sc.get("death")
+                               and sc["shape"] != "big" and not sc.get("bydigest") and not sc.get("tgtbydigest")
                                and t["meta"].get("err") == "" and not sc["opts"] and sc["tag0"] != "same"
                                and sum(1 for e in t["events"] if e["ev"] == "req" and e.get("wr") == 1 and e["class"] == "upload_put") >= 2)
         sc, t = pick(plain)
@@ -350,6 +361,36 @@ class Engine:
         return [m["id"] for m in demos]
 
 
+def missing_class(events, upto):
+    """For a child-missing rejection: was the missing child the object of a request that got an injected
+    fault ("missing-faulted": the parent ignored that child's own error) or not ("missing-unfetched": the
+    child was cancelled / never fetched)?  Part of the violation signature."""
+    kids, init_m, store, faulted, put = {}, set(), None, set(), set()
+    for i, e in enumerate(events):
+        if upto is not None and i > upto:
+            break
+        if e["ev"] == "edge" and e.get("psel") == 1 and e.get("role") != "ext":
+            kids.setdefault(e["p"], set()).add(e["c"])
+        elif e["ev"] == "init":
+            init_m = set(e["mans"])
+        if e["ev"] == "req" and e.get("flt") == 1:
+            faulted.add(e.get("n"))
+        if e["ev"] == "req" and e.get("class") == "manifest_put" and e.get("st") == 201:
+            put.add(e.get("pn"))
+        if "mans" in e and e["ev"] != "init":
+            store = e
+    if store is None:
+        return "missing-unknown"
+    present = set(store["blobs"]) | set(store["mans"])
+    written = (set(store["mans"]) - init_m) | put
+    missing = set()
+    for m in written:
+        missing |= kids.get(m, set()) - present
+    if not missing:
+        return "missing-unknown"
+    return "missing-faulted" if missing & faulted else "missing-unfetched"
+
+
 def optsig(sc):
     o = sc.get("opts", {})
     s = "+".join(k for k in sorted(o) if o[k]) or "default"
@@ -420,9 +461,12 @@ def shapes_tla(cat):
                 subjects.append(r[1])
         kinds = " @@ ".join("(%s :> %s)" % (s(n["name"]), s(n["kind"])) for n in mans)
         kids = []
+        size = {n["name"]: n["size"] for n in sh["nodes"]}
         for n in mans:
+            # (a descriptor of size 0 carries its whole content: regclient treats it like inline data)
             seq = ", ".join("<<%s, %s, %s, %s>>" % (s(e["c"]), s(e["role"]), s(e.get("plat", "")),
-                                                   "TRUE" if e.get("inline") else "FALSE") for e in n["edges"])
+                                                   "TRUE" if e.get("inline") or size[e["c"]] == 0 else "FALSE")
+                            for e in n["edges"])
             kids.append("(%s :> <<%s>>)" % (s(n["name"]), seq))
         for sub in subjects:
             seq = ", ".join("<<%s, \"entry\", \"\", FALSE>>" % s(r[0]) for r in refs if r[1] == sub)
@@ -540,7 +584,7 @@ def defect_prone(sc):
     (ocidir.ManifestPut does not look at the context) with a cancellation or a request that fails."""
     if sc["pair"] not in ("reg2dir", "dir2dir"):
         return False
-    if sc.get("cancel"):
+    if sc.get("cancel") or sc.get("cancel_cb"):
         return True
     for f in sc.get("faults") or []:
         if f.get("kind") in FATAL + ["stall"]:
@@ -559,7 +603,7 @@ def cause_of(sc):
         d = "death"
     else:
         d = ""
-    if sc.get("cancel") or any(s.get("op") == "cancel" for s in (sc.get("script") or [])) or \
+    if sc.get("cancel") or sc.get("cancel_cb") or any(s.get("op") == "cancel" for s in (sc.get("script") or [])) or \
             any(f.get("kind") == "stall" for f in fs):
         return "cancel" + ("+death" if d else "")
     fatal = [f for f in fs if f.get("kind") in FATAL]
@@ -660,3 +704,9 @@ ASSUMPTIONS = [
     "layout targets are observed at the copy's source requests, at its progress callbacks and at the end (not per syscall)",
     "schedules are imposed at request granularity; settle detection is a short quiet window (a wrong guess is drift, never a verdict)",
 ]
+
+
+if __name__ == "__main__":
+    # regenerate the TLA+ catalogue:  copydrv -mode catalogue | python3 tools/props/copy_common.py > spec/CopyShapes.tla
+    import sys
+    sys.stdout.write(shapes_tla({s["name"]: s for s in json.load(sys.stdin)}))
